@@ -14,8 +14,8 @@ func init() {
 	register(&Prop{
 		ID:       "C14",
 		Category: "fault_enumeration",
-		Rule: "operation sequences S of length <=d over {Write(piece), Flush, Close} (pieces: small, 10 KB, fill, >64 KiB; thorough adds 200 KB incompressible); N(S) = destination calls of the fault-free run; " +
-			"for EVERY k in 1..N(S) the k-th destination call fails with a fresh error value, accepting 0 or len/2 bytes; then every continuation of length <=2 (quick: <=1 when k>2) over {W(small), W(fill), Flush, Close}; " +
+		Rule: "operation sequences S over {Write(piece), Flush, Close}: length <=2 over pieces {small, 10 KB, fill, >64 KiB} (quick); thorough: length <=3 over {small, 10 KB, fill} and length <=2 over those plus >64 KiB and 200 KB incompressible; N(S) = destination calls of the fault-free run; " +
+			"for EVERY k in 1..N(S) the k-th destination call fails with a fresh error value, accepting 0 or len/2 bytes; then every continuation of length <=2 (<=1 when k>2 in quick, k>6 in thorough) over {W(small), W(fill), Flush, Close}; " +
 			"oracle: the operation in progress returns exactly that error, every later call returns a non-nil error and makes no destination call, no panic, guard zones intact, Reset revives the Writer; " +
 			"non-trivial = the injected failure was reached (k <= N(S)); distinct = distinct (setting, S, k, short-count, continuation)",
 		Assumptions: []string{"the destination reports failure through its error result (a short count with a nil error is outside the statement)"},
@@ -64,10 +64,18 @@ func c14Harness(cfg *Cfg) func(x *mc.Exec) {
 		ki := x.Choose(len(kinds), "cfg")
 		k := kinds[ki]
 		ps := getPieces(k)
-		// the sequence S
+		// the sequence S. Thorough tier: depth 3 over the small alphabet {small, 10K, fill, Flush, Close}, depth 2 over the full one.
 		var S []int
-		for step := 0; step < d; step++ {
-			c := x.Choose(len(ps)+3, "op")
+		nps, depth := len(ps), d
+		if cfg.Thorough {
+			if x.Choose(2, "alphabet") == 0 {
+				nps, depth = 3, 3
+			} else {
+				depth = 2
+			}
+		}
+		for step := 0; step < depth; step++ {
+			c := x.Choose(nps+3, "op")
 			if c == 0 {
 				break
 			}
@@ -172,8 +180,8 @@ func c14Harness(cfg *Cfg) func(x *mc.Exec) {
 		}
 		// continuation
 		contLen := 2
-		if !cfg.Thorough && fk > 2 {
-			contLen = 1 // quick tier: two-step continuations only for failures at the first two destination calls
+		if fk > 2 && (!cfg.Thorough || fk > 6) {
+			contLen = 1 // two-step continuations for failures at the first two (quick) / six (thorough) destination calls
 		}
 		for j := 0; j < contLen; j++ {
 			c := x.Choose(len(contNames), "cont")
